@@ -217,6 +217,20 @@ func (s *shrinker) simplify() bool {
 		}
 		return false
 	})
+	apply(func(p *Plan) bool {
+		if p.Sim.JitterNs != 0 {
+			p.Sim.JitterNs = 0
+			return true
+		}
+		return false
+	})
+	apply(func(p *Plan) bool {
+		if p.Sim.SlowMod != 0 {
+			p.Sim.SlowMod, p.Sim.SlowNs = 0, 0
+			return true
+		}
+		return false
+	})
 	// drop unused keys from the end
 	apply(func(p *Plan) bool {
 		maxKey := 0
